@@ -29,6 +29,7 @@ nature*; the theorems below are nevertheless full-strength statements about the 
 * `C19_instantiate_structure`, `C19_set_params_roundtrip` — `set_params` touches nothing but
   parameter values and `params` reads back what was set; `C19_instantiate_keeps_least` — the two
   together: after multi-start instantiation the circuit carries a candidate of least cost;
+* `C19_dimension_guard` — after the method selection a target of another dimension is `ValueError`;
 * `C19_selection_order`, `C19_order_table` — first capable / first named instantiater; the live
   `instantiater_order`, the `is_capable` bodies and the `sorted(...)[0]` expressions (regenerated into
   `Generated/InstOrder.lean` on every run) are what the model assumes.
@@ -367,6 +368,35 @@ theorem C19_selection_order (order : List InstEntry) (gs : List GateCaps) :
   · intro s hall
     simp only [selectInst]
     rw [(firstNamed_none s order 0).mpr hall]
+
+/-- **Dimension guard** (`Circuit.instantiate` after /repo e23425b): selection errors come first;
+once an instantiater is chosen the call goes on to the optimiser iff the target has the circuit's
+dimension, and raises `ValueError` otherwise — no optimiser ever sees a target of another dimension. -/
+theorem C19_dimension_guard (order : List InstEntry) (gs : List GateCaps) (m : Method)
+    (targetDim circuitDim : Nat) :
+    (∀ ch, selectGuarded order gs m targetDim circuitDim = .ok ch ↔
+      selectInst order gs m = .ok ch ∧ targetDim = circuitDim) ∧
+    (∀ e, selectInst order gs m = .error e →
+      selectGuarded order gs m targetDim circuitDim = .error e) ∧
+    (∀ ch, selectInst order gs m = .ok ch → targetDim ≠ circuitDim →
+      selectGuarded order gs m targetDim circuitDim = .error .value) := by
+  unfold selectGuarded
+  cases h : selectInst order gs m with
+  | error e =>
+    refine ⟨fun ch => ?_, fun e' he => ?_, fun ch hch => ?_⟩
+    · simp
+    · cases he; rfl
+    · cases hch
+  | ok c0 =>
+    refine ⟨fun ch => ?_, fun e' he => ?_, fun ch hch hne => ?_⟩
+    · by_cases hd : targetDim = circuitDim
+      · simp [hd]
+      · simp [hd]
+    · cases he
+    · simp [hne]
+
+example : selectGuarded assumedOrder [⟨false, true⟩] .auto 2 4 = .error .value := by decide
+example : selectGuarded assumedOrder [⟨false, true⟩] .auto 4 4 = .ok (.entry 0) := by decide
 
 /-- **(B) obligation.** The live `instantiater_order` (classes, method names, `is_capable`
 predicates classified by behaviour on probe circuits) is the table the model uses, and every selection
